@@ -298,8 +298,10 @@ theorem frameC_trigger (f : Nat) (s : State) (g : Nat) (pre post : List SOp) : F
     exact ((frameC_popHead s g).trans (frameC_passivateS _ _ _ _ _)).trans (frameC_delEntry _ _)
   | case7 s g pre post h _ hq hh hd f a t ht hb hp =>
     exact (frameC_popHead s g).trans (frameC_passivateS _ _ _ _ _)
-  | case8 s g pre post h _ hq hh hd f a t ht hb hp ih =>
+  | case8 s g pre post h _ hq hh hd f a t ht hb hp hx ih =>
     exact ((((frameC_popHead s g).trans (frameC_passivateS _ _ _ _ _)).trans (frameC_refresh _ _)).trans (frameC_hpush _ _)).trans ih
+  | case9 s g pre post h _ hq hh hd f a t ht hb hp hx ih =>
+    exact ((frameC_popHead s g).trans (frameC_passivateS _ _ _ _ _)).trans ih
 
 theorem frameC_tickStep (s : State) (pre post : List SOp) : FrameC s (tickStep s pre post) := by
   unfold tickStep
